@@ -12,6 +12,8 @@ PROP = {
         "bin": "netsim", "pkg": "tm/tmengine", "inject": [("netsim", "tm/tmengine")],
         "tests": [
             {"name": "TestVerifC03Agreement", "quick": 300, "thorough": 16000, "shards": {"thorough": 16}, "shrinktime": "60s", "env": {"GOMAXPROCS": "2"}},
+            # thorough only: the same schedules compiled with the data race detector
+            {"name": "TestVerifC03AgreementDetector", "thorough": 1600, "shards": {"thorough": 8}, "salt": 4, "shrinktime": "60s", "race": True, "env": {"GOMAXPROCS": "2", "GORACE": "halt_on_error=1"}},
         ],
     }],
 }
